@@ -169,6 +169,9 @@ func validateStreams(env *Environment, errorSink *validation.ErrorSink) *Environ
 			}
 
 			self.VisitChildren(node, node)
+		case *TypeCase:
+			// an element type or union case is not a top-level protocol sequence element
+			self.VisitChildren(node, node)
 		default:
 			self.VisitChildren(node, context)
 		}
